@@ -331,7 +331,7 @@ class Kern:
         self.libc.malloc.argtypes = [ctypes.c_size_t]
         self.libc.free.argtypes = [ctypes.c_void_p]
 
-    def run(self, p):
+    def run(self, p, announce=None):
         """args: {"t": "int"|"ll"|"double", "v": scalar}  or  {"buf": name, "t": ctype, "ext": n, "v": [...]}"""
         path = p.get("lib") or os.path.join(self.native, "libhykern.so")
         if path not in self.libs:
@@ -360,11 +360,74 @@ class Kern:
                 cargs.append(ct(v if a["t"] == "double" else int(v)))
                 ctys.append(ct)
         fn.argtypes = ctys
+        if announce is not None:
+            announce(regions)
         ret = fn(*cargs)
         for ptr in held:
             if ptr:
                 self.libc.free(ptr)
         return int(ret), regions
+
+
+def forked_kern(kern, p, logbase):
+    """run one kernel probe in a forked child -> (outcome, regions, sanitizer log text of the child)"""
+    import signal as _signal
+    r, w = os.pipe()
+    pid = os.fork()
+    if pid == 0:
+        code = 3
+        try:
+            os.close(r)
+
+            def announce(regions):
+                os.write(w, (json.dumps({"regions": regions}) + "\n").encode())
+            ret, _ = kern.run(p, announce)
+            os.write(w, (json.dumps({"ret": "ok", "val": ret}) + "\n").encode())
+            code = 0
+        except BaseException as e:      # noqa
+            try:
+                os.write(w, (json.dumps({"ret": "exc:" + type(e).__name__, "val": str(e)[:120]}) + "\n").encode())
+            except Exception:
+                pass
+        finally:
+            sys.stdout.flush()
+            os._exit(code)
+    os.close(w)
+    data = b""
+    while True:
+        chunk = os.read(r, 65536)
+        if not chunk:
+            break
+        data += chunk
+    os.close(r)
+    _, status = os.waitpid(pid, 0)
+    regions, out = [], None
+    for line in data.decode(errors="replace").splitlines():
+        try:
+            js = json.loads(line)
+        except Exception:
+            continue
+        if "regions" in js:
+            regions = [tuple(x) for x in js["regions"]]
+        else:
+            out = js
+    if out is None:
+        if os.WIFSIGNALED(status):
+            try:
+                sig = _signal.Signals(os.WTERMSIG(status)).name
+            except Exception:
+                sig = f"signal{os.WTERMSIG(status)}"
+        else:
+            sig = f"exit{os.WEXITSTATUS(status)}"
+        out = {"ret": "died", "val": None, "childsignal": sig}
+    text = ""
+    if logbase:
+        f = f"{logbase}.{pid}"
+        if os.path.exists(f):
+            with open(f, "r", errors="replace") as fh:
+                text = fh.read()
+            os.unlink(f)
+    return out, regions, text
 
 
 REPORT_RE = re.compile(r"ERROR: AddressSanitizer: (\S+) on address (0x[0-9a-f]+)")
@@ -442,6 +505,7 @@ def main():
 
     say(f"P {os.getpid()}")
     entries, loaded, kern = None, {}, None
+    childlog = ""
     cur = [start]
     pos = 0
     for i in range(start, len(probes)):
@@ -462,18 +526,20 @@ def main():
             else:
                 if kern is None:
                     kern = Kern(native)
-                code, regions = kern.run(p)
-                out["ret"] = "ok"
-                out["val"] = code
+                # every kernel probe runs in a forked child: a report (ASan keeps one per faulting instruction and
+                # process) or a crash stays confined to it, the worker lives on
+                fo, regions, childlog = forked_kern(kern, p, logbase)
+                out.update(fo)
         except BaseException as e:      # noqa: the worker must survive every Python-level exception
             out["ret"] = "exc:" + type(e).__name__
             out["val"] = str(e)[:120]
         sys.stdout.flush()
-        text = ""
+        text = childlog if p["kind"] != "api" else ""
+        childlog = ""
         if logfile and os.path.exists(logfile):
             with open(logfile, "r", errors="replace") as f:
                 f.seek(pos)
-                text = f.read()
+                text += f.read()
                 pos = f.tell()
         out["reports"] = parse_reports(text, regions) if text else []
         if text and not out["reports"]:
